@@ -115,7 +115,7 @@ def coq_build(targets, timeout=1500):
             return rc == 0, out
         # a check builds only what its property file depends on, so that a broken proof of
         # another property cannot mask (or delay) this one
-        rc, out = sh("timeout %d make -j16 %s 2>&1" % (timeout, " ".join(targets)), cwd=COQ, timeout=timeout + 30)
+        rc, out = sh("timeout %d make -j%s %s 2>&1" % (timeout, os.environ.get("VERIF_JOBS", "16") or "16", " ".join(targets)), cwd=COQ, timeout=timeout + 30)
         return rc == 0, out
 
 
@@ -188,11 +188,12 @@ def build_harness(name, shims, tags="verif", extra_replace=None, timeout=600):
     return rc == 0, out, binp
 
 
-def run_cases(casedir, jobs=16, timeout=1200):
+def run_cases(casedir, jobs=None, timeout=1200):
     """Evaluate every cases_*.v with coqc (vm_compute inside); returns {shard: [bad indices]} and errors."""
     shards = sorted(glob.glob(os.path.join(casedir, "cases_*.v")))
     if not shards:
         return {}, []
+    jobs = jobs or int(os.environ.get("VERIF_JOBS", "16") or "16")
     procs, res, errs = [], {}, []
     pending = list(shards)
     running = []
